@@ -8,9 +8,13 @@
 //! `shl_<ty>_<form> cfg mode a k`, `shr_…`   ty ∈ u8 … isize (k decimal, may be negative), form as above
 //!     (no `inh`; `shl_u32_inh` is the inherent `shl(ExpType)`)
 //! `shl_bu_<form> cfg mode a k`, `shl_bi_…`, `shr_bu_…`, `shr_bi_…`  amount of type BUint<N>/BInt<N> (k hex pattern)
+//! `shl_bu<M>_<form> cfg mode a k`, `shl_bi<M>_…`, `shr_…`  amount of type BUint<M>/BInt<M> over the same digit type with
+//!     M ≠ N digits (`impl<const N, const M> Shl<BUint<M>> for BUint<N>`): M ∈ {1, 2, N+1}; k = hex pattern of M digits
 //! `sum|sum_ref|product|product_ref cfg mode a1,a2,…` (`-` = empty iterator)
 //! `default cfg mode`, `add_digit|div_digit|rem_digit cfg mode a d` (unsigned; d hex digit)
 //! `cmp_* cfg mode a b`: partial_cmp, ord_cmp, lt, le, gt, ge, eq, ne through the operator traits; `*_inh` twins
+//! `ord_max|ord_min cfg mode a b`, `ord_clamp cfg mode a mn mx`: the `Ord` methods bnum overrides (`{buint,bint}/cmp.rs`);
+//!     `max_inh|min_inh|clamp_inh`: the inherent const twins they forward to
 use bnum_verif_harness::*;
 use core::ops::*;
 
@@ -103,8 +107,59 @@ macro_rules! bshift_forms {
     }};
 }
 
+/// `shl_bu3_vv` → (left, amount is BInt, Some(3), "vv"); `shr_bi_asr` → (false, true, None, "asr")
+fn parse_bshift(op: &str) -> Option<(bool, bool, Option<usize>, &str)> {
+    let mut it = op.splitn(3, '_');
+    let (dir, ty, form) = (it.next()?, it.next()?, it.next()?);
+    let left = match dir { "shl" => true, "shr" => false, _ => return None };
+    let (ks, m) = if let Some(m) = ty.strip_prefix("bu") { (false, m) } else if let Some(m) = ty.strip_prefix("bi") { (true, m) } else { return None };
+    if m.is_empty() { return None; }   // M = N is handled by `bshift_forms!`
+    Some((left, ks, Some(m.parse().ok()?), form))
+}
+macro_rules! bshift_run {
+    ($left:expr, $form:expr, $a:expr, $T:ty, $K:ty) => {{
+        let x = <$T>::from_hex($a[1]);
+        let k = <$K>::from_hex($a[2]);
+        match ($left, $form) {
+            (true, "vv") => Some(<$T as Shl<$K>>::shl(x, k).out()),
+            (true, "vr") => Some(<$T as Shl<&$K>>::shl(x, &k).out()),
+            (true, "rv") => Some(<&$T as Shl<$K>>::shl(&x, k).out()),
+            (true, "rr") => Some(<&$T as Shl<&$K>>::shl(&x, &k).out()),
+            (true, "as") => { let mut z = x; <$T as ShlAssign<$K>>::shl_assign(&mut z, k); Some(z.out()) }
+            (true, "asr") => { let mut z = x; <$T as ShlAssign<&$K>>::shl_assign(&mut z, &k); Some(z.out()) }
+            (false, "vv") => Some(<$T as Shr<$K>>::shr(x, k).out()),
+            (false, "vr") => Some(<$T as Shr<&$K>>::shr(x, &k).out()),
+            (false, "rv") => Some(<&$T as Shr<$K>>::shr(&x, k).out()),
+            (false, "rr") => Some(<&$T as Shr<&$K>>::shr(&x, &k).out()),
+            (false, "as") => { let mut z = x; <$T as ShrAssign<$K>>::shr_assign(&mut z, k); Some(z.out()) }
+            (false, "asr") => { let mut z = x; <$T as ShrAssign<&$K>>::shr_assign(&mut z, &k); Some(z.out()) }
+            _ => None,
+        }
+    }};
+}
+/// amounts of type `BUint<M>` / `BInt<M>` with M ≠ N
+macro_rules! bshift_m {
+    ($op:expr, $a:expr, $T:ty, $U:ident, $I:ident, $N:literal) => {{
+        if let Some((left, ks, Some(m), form)) = parse_bshift($op) {
+            let a: &[&str] = $a;
+            if !mode_ok(a[0]) { return Some("skip".into()); }
+            const NP1: usize = $N + 1;
+            #[allow(unreachable_patterns)]
+            return match (ks, m) {
+                (false, 1) => bshift_run!(left, form, a, $T, bnum::$U<1>),
+                (true, 1) => bshift_run!(left, form, a, $T, bnum::$I<1>),
+                (false, 2) => bshift_run!(left, form, a, $T, bnum::$U<2>),
+                (true, 2) => bshift_run!(left, form, a, $T, bnum::$I<2>),
+                (false, NP1) => bshift_run!(left, form, a, $T, bnum::$U<{ $N + 1 }>),
+                (true, NP1) => bshift_run!(left, form, a, $T, bnum::$I<{ $N + 1 }>),
+                _ => None,
+            };
+        }
+    }};
+}
+
 macro_rules! common {
-    ($op:expr, $a:expr, $T:ty, $UT:ty, $IT:ty) => {{
+    ($op:expr, $a:expr, $T:ty, $UT:ty, $IT:ty, $U:ident, $I:ident, $N:literal) => {{
         let op: &str = $op;
         let a: &[&str] = $a;
         match op {
@@ -123,6 +178,7 @@ macro_rules! common {
         shift_forms!(op, a, $T, u8, u16, u32, u64, u128, usize, i8, i16, i32, i64, i128, isize);
         bshift_forms!(op, a, $T, "bu", $UT);
         bshift_forms!(op, a, $T, "bi", $IT);
+        bshift_m!(op, a, $T, $U, $I, $N);
         if op != "from_str" && !a.is_empty() && !mode_ok(a[0]) { return Some("skip".into()); }
         let list = |s: &str| -> Vec<$T> { if s == "-" { vec![] } else { s.split(',').map(|t| <$T>::from_hex(t)).collect() } };
         match op {
@@ -151,6 +207,12 @@ macro_rules! common {
             "cmp_le" => return Some((<$T>::from_hex(a[1]) <= <$T>::from_hex(a[2])).out()),
             "cmp_gt" => return Some((<$T>::from_hex(a[1]) > <$T>::from_hex(a[2])).out()),
             "cmp_ge" => return Some((<$T>::from_hex(a[1]) >= <$T>::from_hex(a[2])).out()),
+            "ord_max" => return Some(<$T as Ord>::max(<$T>::from_hex(a[1]), <$T>::from_hex(a[2])).out()),
+            "ord_min" => return Some(<$T as Ord>::min(<$T>::from_hex(a[1]), <$T>::from_hex(a[2])).out()),
+            "ord_clamp" => return Some(<$T as Ord>::clamp(<$T>::from_hex(a[1]), <$T>::from_hex(a[2]), <$T>::from_hex(a[3])).out()),
+            "max_inh" => { let f: fn($T, $T) -> $T = <$T>::max; return Some(f(<$T>::from_hex(a[1]), <$T>::from_hex(a[2])).out()) }
+            "min_inh" => { let f: fn($T, $T) -> $T = <$T>::min; return Some(f(<$T>::from_hex(a[1]), <$T>::from_hex(a[2])).out()) }
+            "clamp_inh" => { let f: fn($T, $T, $T) -> $T = <$T>::clamp; return Some(f(<$T>::from_hex(a[1]), <$T>::from_hex(a[2]), <$T>::from_hex(a[3])).out()) }
             _ => {}
         }
     }};
@@ -169,11 +231,11 @@ macro_rules! imp {
                 "rem_digit" => return Some(format!("{:x}", <UT as Rem<$D>>::rem(UT::from_hex(a[1]), d(a[2])))),
                 _ => {}
             }
-            common!(op, a, UT, UT, IT);
+            common!(op, a, UT, UT, IT, $U, $I, $N);
             None
         }
         fn run_i(op: &str, a: &[&str]) -> Option<String> {
-            common!(op, a, IT, UT, IT);
+            common!(op, a, IT, UT, IT, $U, $I, $N);
             match op {
                 "neg_v" => Some(<IT as Neg>::neg(IT::from_hex(a[1])).out()),
                 "neg_r" => Some(<&IT as Neg>::neg(&IT::from_hex(a[1])).out()),
@@ -193,7 +255,11 @@ macro_rules! for_config17 {
             "8x1" => $m!(BUintD8, BIntD8, u8, 1),
             "8x2" => $m!(BUintD8, BIntD8, u8, 2),
             "8x3" => $m!(BUintD8, BIntD8, u8, 3),
+            "8x4" => $m!(BUintD8, BIntD8, u8, 4),
             "8x5" => $m!(BUintD8, BIntD8, u8, 5),
+            "8x6" => $m!(BUintD8, BIntD8, u8, 6),
+            "8x7" => $m!(BUintD8, BIntD8, u8, 7),
+            "8x8" => $m!(BUintD8, BIntD8, u8, 8),
             "8x17" => $m!(BUintD8, BIntD8, u8, 17),
             "8x64" => $m!(BUintD8, BIntD8, u8, 64),
             "16x1" => $m!(BUintD16, BIntD16, u16, 1),
@@ -205,6 +271,11 @@ macro_rules! for_config17 {
             "64x2" => $m!(BUint, BInt, u64, 2),
             "64x3" => $m!(BUint, BInt, u64, 3),
             "64x16" => $m!(BUint, BInt, u64, 16),
+            // the widest in-scope instantiation of every digit type (8192 bits)
+            "8x1024" => $m!(BUintD8, BIntD8, u8, 1024),
+            "16x512" => $m!(BUintD16, BIntD16, u16, 512),
+            "32x256" => $m!(BUintD32, BIntD32, u32, 256),
+            "64x128" => $m!(BUint, BInt, u64, 128),
             _ => None,
         }
     };
